@@ -165,6 +165,26 @@ theorem bank_window_fits_usize (d : Decls) (defs : Defs) (b : BankdefAst) (bank 
            | (injection hs with hs; rw [← hs]; exact hlt)
        · cases hq))
 
+/-- **the static size of a concatenation is the exact sum of the parts' sizes, or unknown** - never the sum modulo 2^64
+    (finding F82, repaired) -/
+theorem static_size_of_concat_is_exact (p : SKProvider) (l r : Expr) (n : Nat)
+    (h : staticSize p (.bin .Concat l r) = some n) :
+    ∃ a b, staticSize p l = some a ∧ staticSize p r = some b ∧ n = a + b ∧ n < USIZE_MAX1 := by
+  rw [staticSize] at h
+  cases hl : staticSize p l with
+  | none => rw [hl] at h; cases h
+  | some a =>
+    cases hr : staticSize p r with
+    | none => rw [hl, hr] at h; cases h
+    | some b =>
+      rw [hl, hr] at h
+      simp only at h
+      split at h
+      · rename_i hlt
+        injection h with h
+        exact ⟨a, b, rfl, rfl, h.symm, by omega⟩
+      · cases h
+
 /-! ### positions are machine words that never wrap (finding F61, repaired) -/
 
 /-- the position of the current bank, read back after it was set (the bank exists) -/
